@@ -16,6 +16,9 @@
  *   openerr:<suffix>:<errno>       open of a path ending in <suffix> fails
  *   wshort:<fd>:<n>                writes to fd 1/2 accept at most n bytes per call
  *   werr:<fd>:<after>:<errno>      once <after> bytes were written to fd, write fails
+ *   tty:<fd>                       isatty(fd) answers 1 (the fd is still the pipe it was)
+ * Besides, every getenv() the program makes is traced (name only), which is how the
+ * simulator discovers configuration inputs it should vary.
  * <target> is "stdin" or a path suffix.
  */
 #define _GNU_SOURCE
@@ -57,6 +60,20 @@ static long wshort[3] = {0, 0, 0};
 static long werr_after[3] = {-1, -1, -1};
 static int werr_errno[3] = {0, 0, 0};
 static long written[3] = {0, 0, 0};
+
+static int tty_fd[3] = {0, 0, 0};
+static int (*real_isatty)(int);
+static char *(*real_getenv)(const char *);
+static int env_tracing = 0;
+extern char **environ;
+
+/* own lookup: must not go through the interposed getenv */
+static const char *env_lookup(const char *name) {
+    size_t n = strlen(name);
+    for (char **e = environ; e && *e; e++)
+        if (strncmp(*e, name, n) == 0 && (*e)[n] == '=') return *e + n + 1;
+    return NULL;
+}
 
 static ssize_t (*real_read)(int, void *, size_t);
 static ssize_t (*real_write)(int, const void *, size_t);
@@ -104,6 +121,11 @@ static void parse_plan(char *plan) {
             if (fd == 1 || fd == 2) wshort[fd] = atol(b);
             continue;
         }
+        if (!strcmp(kind, "tty")) {
+            int fd = atoi(a);
+            if (fd >= 0 && fd <= 2) tty_fd[fd] = 1;
+            continue;
+        }
         if (!strcmp(kind, "werr") && b && c) {
             int fd = atoi(a);
             if (fd == 1 || fd == 2) { werr_after[fd] = atol(b); werr_errno[fd] = atoi(c); }
@@ -138,10 +160,12 @@ static void init(void) {
     real_open = dlsym(RTLD_NEXT, "open");
     real_openat = dlsym(RTLD_NEXT, "openat");
     real_close = dlsym(RTLD_NEXT, "close");
+    real_isatty = dlsym(RTLD_NEXT, "isatty");
+    real_getenv = dlsym(RTLD_NEXT, "getenv");
     for (int i = 0; i < 1024; i++) fd_target[i] = -1;
-    const char *tp = getenv("SYSSHIM_TRACE");
+    const char *tp = env_lookup("SYSSHIM_TRACE");
     if (tp) trace_fd = syscall(SYS_openat, AT_FDCWD, tp, O_WRONLY | O_CREAT | O_APPEND | O_CLOEXEC, 0644);
-    const char *plan = getenv("SYSSHIM_PLAN");
+    const char *plan = env_lookup("SYSSHIM_PLAN");
     struct target *in = get_target("stdin");
     (void)in;
     if (plan) {
@@ -150,6 +174,27 @@ static void init(void) {
         free(copy);
     }
     fd_target[0] = 0; /* T[0] is always stdin */
+    env_tracing = 1;
+}
+
+char *getenv(const char *name) {
+    if (!inited) {
+        /* early callers (loader, libc start-up): answer from environ, no tracing */
+        return (char *)env_lookup(name);
+    }
+    if (env_tracing && name && strncmp(name, "SYSSHIM_", 8) != 0) trace("getenv name=%s\n", name);
+    return real_getenv ? real_getenv(name) : (char *)env_lookup(name);
+}
+
+int isatty(int fd) {
+    init();
+    if (fd >= 0 && fd <= 2 && tty_fd[fd]) {
+        trace("isatty fd=%d -> 1 (injected)\n", fd);
+        return 1;
+    }
+    int r = real_isatty ? real_isatty(fd) : 0;
+    if (fd >= 0 && fd <= 2) trace("isatty fd=%d -> %d\n", fd, r);
+    return r;
 }
 
 static int ends_with(const char *s, const char *suf) {
@@ -186,7 +231,7 @@ static int do_open(const char *path, int which, int dirfd, int flags, mode_t mod
             T[ti].reads = 0;
             T[ti].chunk_i = 0;
         }
-    } else if (path && getenv("SYSSHIM_TRACE_ALL_OPENS")) {
+    } else if (path && env_lookup("SYSSHIM_TRACE_ALL_OPENS")) {
         trace("open path=%s (untracked) -> %d\n", path, fd);
     }
     errno = e;
